@@ -865,9 +865,17 @@ EVENTS_QUICK = ([("read", r) for r in READS] +
                  ("setF", "array"), ("setF", "list"), ("setFF_P", "array"), ("setFF_P", "mutate_after"),
                  ("setWH", "array"), ("setW", "array"),
                  ("randF", 5), ("solve", 0), ("solve", "P2"), ("initwith", "fix")] + CHAN_EVENTS_QUICK)
+# every public call form of set_precoders (F / full_F / P keywords) x value regime: 'full' = the
+# scaled precoders use all the power, 'backoff' = ||full_F[k]||^2 < P[k].  (F alone and full_F+P at
+# full power are the setF / setFF_P events above.)  Not taken as the last event of a history.
+FORM_EVENTS_QUICK = [("setPC", "F+P", "full"), ("setPC", "F+fullF", "backoff"), ("setPC", "fullF", "backoff"),
+                     ("setPC", "fullF+P", "backoff"), ("setPC", "F+fullF+P", "backoff")]
+FORM_EVENTS_MORE = [("setPC", "F+fullF", "full"), ("setPC", "fullF", "full"), ("setPC", "F+fullF+P", "full")]
+BACKOFF = (0.8, 0.35, 0.6, 0.5)
+EVENTS_QUICK += FORM_EVENTS_QUICK
 EVENTS_QUICK.remove(("read", "W_H"))      # (reading full_W_H populates the W_H cache as well)
 EVENTS = EVENTS_QUICK + [("read", "W_H"), ("setWH", "list"), ("chan", "pl", None),
-                         ("solve", "noP")]      # thorough
+                         ("solve", "noP")] + FORM_EVENTS_MORE      # thorough
 PV_SOLVE2 = (3.0, 1e-3, 40.0)
 
 
@@ -950,7 +958,7 @@ def evkind(ev):
     t = ev[0]
     if t == "P":
         return "P="
-    if t in ("setF", "setFF_P"):
+    if t in ("setF", "setFF_P", "setPC"):
         return "set_precoders"
     if t in ("setWH", "setW"):
         return "set_receive_filters"
@@ -1032,6 +1040,25 @@ def apply_event(sv, ev, base):
         if ev[1] == "mutate_after":           # the caller re-uses its buffers afterwards (in place)
             X[0] *= 2.0
             Pv *= 9.0
+    elif t == "setPC":
+        tokens = ev[1].split("+")
+        F = payload(base, "F")
+        Pv = np.array(PV_SETFF[:K])
+        Pref = Pv if "P" in tokens else np.asarray(sv.P, dtype=float)      # the power in force
+        beta = BACKOFF[:K] if ev[2] == "backoff" else (1.0,) * K
+        X = obj_array([F[k] * math.sqrt(beta[k] * Pref[k]) for k in range(K)])
+        keepX = [np.array(x) for x in X]
+        kw = {}
+        if "F" in tokens:
+            kw["F"] = obj_array(F)
+        if "fullF" in tokens:
+            kw["full_F"] = X
+        if "P" in tokens:
+            kw["P"] = Pv
+        sv.set_precoders(**kw)
+        _unchanged("set_precoders(F)", F, payload(base, "F"))
+        _unchanged("set_precoders(full_F)", list(X), keepX)
+        _unchanged("set_precoders(P)", [Pv], [np.array(PV_SETFF[:K])])
     elif t == "setWH":
         X = payload(base, "WH")
         arg = X if ev[1] == "list" else obj_array(X)
@@ -1195,6 +1222,22 @@ class E3Job:
                 md["Flist"] = False
                 if ev[1] == "mutate_after":
                     md["alias"] = dict(P=Pv * 9.0, FF0=md["FFx"][0] * 2.0)
+            elif t == "setPC":
+                tokens = ev[1].split("+")
+                F = payload(self.base, "F")
+                Pnew = np.array(PV_SETFF[:K]) if "P" in tokens else np.array(md["P"], dtype=float)
+                beta = BACKOFF[:K] if ev[2] == "backoff" else (1.0,) * K
+                X = [F[k] * math.sqrt(beta[k] * Pnew[k]) for k in range(K)]
+                md["P"] = Pnew
+                if "fullF" in tokens:
+                    # what was PASSED IN: full_F as given; F as given, else full_F with unit norm
+                    md["FFx"] = X
+                    md["F"] = F if "F" in tokens else [x / np.linalg.norm(x) for x in X]
+                else:
+                    md["FFx"] = None
+                    md["F"] = F
+                md["FFalt"] = None
+                md["Flist"] = False
             elif t == "setWH":
                 md["WH"] = payload(self.base, "WH")
             elif t == "setW":
@@ -1646,7 +1689,7 @@ class E3Job:
                 # last position of a history: a read (the invariants read every view anyway), a channel
                 # change (nothing is judged before the next solver-side call) or a configuration
                 # switch cannot show anything the prefix state does not show
-                evs = [e for e in evs if e[0] not in ("read", "chan", "initwith")]
+                evs = [e for e in evs if e[0] not in ("read", "chan", "initwith", "setPC")]
             return evs
 
         def invariant(hist, st):
@@ -1773,6 +1816,8 @@ def main(chk: Check):
                "(quick) / two (thorough) channel events per history")
     chk.assume("E3 pruning: reads, channel changes and initialize_with switches are not taken as the LAST event "
                "of a maximal-length history (they only matter through a later solver-side call)")
+    chk.assume("E3: the additional call forms of set_precoders (F+P, F+full_F, full_F, full_F+P, F+full_F+P; "
+               "full power / backed off) are taken at every position of a history but the last")
     chk.assume("max_iterations = 0 is outside the enumerated alphabet (only used to observe the initial cost)")
     chk.extra.update(dict(UNIT_TOL=UNIT_TOL, POWER_RTOL=POWER_RTOL, MMSE_POWER_RTOL=MMSE_POWER_RTOL,
                           IDENT_C=IDENT_C, KAPPA_MAX=KAPPA_MAX, COST_RTOL=COST_RTOL, COST_ATOL=COST_ATOL,
